@@ -25,6 +25,8 @@ type Env struct {
 	vf      *os.File
 	j       *bufio.Writer // cases.jsonl
 	jf      *os.File
+	g       *bufio.Writer // cases.gal: the Gallina term of every case (inputs + what was observed), for replay records
+	gf      *os.File
 	Stats   map[string]int
 	Samples []interface{}
 	Cases   int
@@ -41,9 +43,13 @@ func newEnv(name string, seed int64, n int, out, replay, mode string) *Env {
 	if err != nil {
 		panic(err)
 	}
+	gf, err := os.Create(filepath.Join(out, "cases.gal"))
+	if err != nil {
+		panic(err)
+	}
 	return &Env{Name: name, Seed: seed, N: n, Out: out, Replay: replay, Mode: mode,
 		R: rand.New(rand.NewSource(seed)), v: bufio.NewWriterSize(vf, 1<<20), vf: vf,
-		j: bufio.NewWriterSize(jf, 1<<20), jf: jf, Stats: map[string]int{}, first: true}
+		j: bufio.NewWriterSize(jf, 1<<20), jf: jf, g: bufio.NewWriterSize(gf, 1<<20), gf: gf, Stats: map[string]int{}, first: true}
 }
 
 // Header writes the preamble of cases.v: imports and the opening of the case list.
@@ -58,6 +64,8 @@ func (e *Env) Case(gallina string, js interface{}) {
 	}
 	e.first = false
 	e.v.WriteString(gallina)
+	e.g.WriteString(gallina)
+	e.g.WriteString("\n\x1e\n")
 	b, _ := json.Marshal(js)
 	e.j.Write(b)
 	e.j.WriteString("\n")
@@ -82,6 +90,8 @@ func (e *Env) finish() error {
 	e.vf.Close()
 	e.j.Flush()
 	e.jf.Close()
+	e.g.Flush()
+	e.gf.Close()
 	st := map[string]interface{}{"name": e.Name, "seed": e.Seed, "cases": e.Cases, "stats": e.Stats, "samples": e.Samples}
 	b, _ := json.MarshalIndent(st, "", " ")
 	return os.WriteFile(filepath.Join(e.Out, "stats.json"), b, 0644)
